@@ -154,6 +154,23 @@ func runC15(c *Ctx) {
 			nDispatch++
 		} else if g := flow.StaticCallee(call); g != nil && c.reachesHandler(g, false, memo) {
 			nDispatch++
+		} else if g != nil && g.Blocks != nil && c.P.IsLibrary(g) {
+			// the dispatch is a closure of this function handed to a loop helper that calls it synchronously
+			for i, a := range call.Call.Args {
+				mc, ok := a.(*ssa.MakeClosure)
+				if !ok || i >= len(g.Params) {
+					continue
+				}
+				fn := mc.Fn.(*ssa.Function)
+				if !invokesHandler(fn) && !c.reachesHandler(fn, false, memo) {
+					continue
+				}
+				for _, cj := range flow.CallInstrs(g) {
+					if cc, ok := cj.(*ssa.Call); ok && cc.Call.Value == ssa.Value(g.Params[i]) {
+						nDispatch++
+					}
+				}
+			}
 		}
 	}
 	r.Check(nDispatch >= 1, "R1", fname(loopFn)+":dispatch-in-loop-function", c.fpos(loopFn),
@@ -185,7 +202,8 @@ func runC15(c *Ctx) {
 	}
 
 	// ---- R4 ----
-	c.c15Report(loopFn)
+	readLoopFn, _ := c.connReadLoop(loopFn)
+	c.c15Report(readLoopFn)
 
 	// ---- R5: a handler panic must not leave shared state locked / shared buffers double-released ----
 	var roots []*ssa.Function
